@@ -24,7 +24,7 @@ PARAM_GRIDS = {
     'tukey': [dict(r=r) for r in (0, 1e-6, 0.1, 0.25, 0.5, 0.9, 0.99999, 1 - 1e-7, 1)],     # including values next to the r = 0 / r = 1 special cases
     'chebwin': [dict(attenuation=a) for a in (30, 50, 100)],
     'flattop': [dict(mode=m) for m in ('symmetric', 'periodic')],
-    'taylor': [dict(nbar=nb, sll=s) for nb in (2, 4, 6) for s in (-20, -30, -40)],
+    'taylor': [dict(nbar=nb, sll=s) for nb in (2, 4, 6) for s in (-20, -30, -40)] + [dict(nbar=6), dict(sll=-40)],      # also each parameter alone
 }
 ALL_KEYWORDS = ['beta', 'alpha', 'attenuation', 'mode', 'r', 'nbar', 'sll', 'foo', 'N', 'method', 'precision']
 DOCUMENTED = {'kaiser': ['beta'], 'blackman': ['alpha'], 'cauchy': ['alpha'], 'flattop': ['mode'], 'gaussian': ['alpha'], 'chebwin': ['attenuation'],
@@ -88,6 +88,10 @@ def run_shard(desc, R, tier):
         for N in range(1, hi + 1):
             for p in PARAM_GRIDS.get(name, []):
                 eval_point({'kind': 'w', 'name': name, 'N': N, 'params': p}, R)
+                if N in (8, 9, 32):
+                    # Window objects: a default-parameter object first, then the parametrised one (and the reverse order)
+                    eval_point({'kind': 'obj', 'name': name, 'N': N, 'params': p, 'first': 'default'}, R)
+                    eval_point({'kind': 'obj', 'name': name, 'N': N, 'params': {}, 'first': p}, R)
                 if N in (8, 9):
                     # a parametrised request must not leak into a later default request (sequence of two calls)
                     eval_point({'kind': 'w', 'name': name, 'N': N, 'params': {}, 'after': p}, R)
@@ -156,14 +160,23 @@ def eval_point(pt, R):
         name, N = pt['name'], int(pt['N'])
         R.point(pt)
         R.calls(2)
+        prm = dict(pt.get('params') or {})
         try:
-            o = spectrum.Window(N, name)
-            w = np.asarray(spectrum.create_window(N, name))
+            if pt.get('first') is not None:
+                f = {} if pt['first'] == 'default' else dict(pt['first'])
+                o1 = spectrum.Window(N, name, **f)
+                _ = o1.enbw
+                d1 = np.asarray(o1.data)
+                if d1.flags.writeable:
+                    d1 /= max(float(np.sum(d1)), 1e-300)         # the caller normalises the samples of the first object in place
+            o = spectrum.Window(N, name, **prm)
+            w = np.asarray(getattr(W, W.window_names[name])(N, **prm))
             same = np.array_equal(np.asarray(o.data), w, equal_nan=True) and o.N == N
             s = float(np.sum(w))
             if N >= 3 and s != 0 and np.all(np.isfinite(w)):
                 same = same and abs(o.enbw - N * float(np.sum(w ** 2)) / s ** 2) <= 1e-12 * abs(o.enbw)
-            R.check(same, 'window_object', {'name': name}, pt, [o.N, o.enbw], [N, None], 'Window object disagrees with the factory (samples, length or ENBW)', outs=(w, 'obj'))
+            R.check(same, 'window_object', {'name': name, 'sequence': 'single' if pt.get('first') is None else 'second object'}, pt, [o.N, o.enbw], [N, None],
+                    'Window object disagrees with the generator (samples, length or ENBW)', outs=(w, 'obj'))
             if N >= 2 and np.all(np.isfinite(w)) and abs(s) > 1e-12:
                 # using the frequency-response getters must not change what the object reports
                 _ = o.response
